@@ -34,6 +34,7 @@ Definition frame_okb (f : Frame) : bool :=
    else (-128 <=? h_StreamId h) && (h_StreamId h <? 128)) &&
   Bool.eqb (h_IsResponse h) (msg_is_response (bd_Message b)) &&
   (h_OpCode h =? msg_opcode (bd_Message b)) &&
+  dse_opcode_ok (h_Version h) (h_OpCode h) &&
   body_okb h b.
 
 (* what decoding the encoding of a valid frame returns: the declared body length, the message in normal form *)
